@@ -82,6 +82,10 @@ def _run_one(args):
             return r
         except Exception:       # noqa
             pass
+    import sys
+    cm = sys.modules.get("contracts.core")
+    if cm is not None:
+        cm._OPEN = 0      # per-task count of undischarged obligations (fast mode for the rest of a failing task)
     r = task.run()
     r["cached"] = False
     try:
@@ -94,20 +98,74 @@ def _run_one(args):
     return r
 
 
+def _child(args, path):
+    try:
+        r = _run_one(args)
+    except BaseException as e:       # noqa
+        import traceback
+        r = {"task": getattr(args[0], "name", "?"), "status": "crash", "detail": "%s\n%s" % (e, traceback.format_exc()), "obligations": []}
+    tmp = path + ".tmp"
+    with open(tmp, "w") as f:
+        json.dump(r, f)
+    os.replace(tmp, path)
+    os._exit(0)
+
+
 def run_tasks(tasks, root, procs=None, use_cache=True):
+    """One forked process per task, at most `procs` at a time, longest first.  A task that exceeds the
+    wall-clock limit (PYVC_TASK_LIMIT_S, default 1500 s) is killed and reported as undecided
+    (out-of-subset: no verdict either way) so that a check always terminates."""
+    import tempfile
+    import time
     procs = procs or int(os.environ.get("PYVC_PROCS", "16"))
+    limit = float(os.environ.get("PYVC_TASK_LIMIT_S", "1500"))
     cdir = cache_dir(root)
-    # longest first
     order = sorted(range(len(tasks)), key=lambda i: -getattr(tasks[i], "weight", 1))
-    args = [(tasks[i], cdir, use_cache) for i in order]
-    if procs <= 1 or len(tasks) <= 1:
-        res = [_run_one(a) for a in args]
-    else:
-        with mp.get_context("fork").Pool(min(procs, len(tasks))) as pool:
-            res = pool.map(_run_one, args, chunksize=1)
     out = [None] * len(tasks)
-    for i, r in zip(order, res):
-        out[i] = r
+    if procs <= 1 or len(tasks) <= 1:
+        for i in order:
+            out[i] = _run_one((tasks[i], cdir, use_cache))
+        return out
+    tmpd = tempfile.mkdtemp(prefix="pyvc_", dir=os.environ.get("PYVC_SCRATCH") or None)
+    pending = list(order)
+    running = {}      # pid -> (index, path, start)
+    try:
+        while pending or running:
+            while pending and len(running) < procs:
+                i = pending.pop(0)
+                path = os.path.join(tmpd, "%d.json" % i)
+                pid = os.fork()
+                if pid == 0:
+                    _child((tasks[i], cdir, use_cache), path)
+                running[pid] = (i, path, time.time())
+            time.sleep(0.05)
+            for pid in list(running):
+                i, path, t0 = running[pid]
+                done, _ = os.waitpid(pid, os.WNOHANG)
+                if done:
+                    del running[pid]
+                    try:
+                        with open(path) as f:
+                            out[i] = json.load(f)
+                    except Exception as e:      # noqa
+                        out[i] = {"task": getattr(tasks[i], "name", "?"), "status": "crash", "detail": "worker died without a result (%s)" % e, "obligations": []}
+                elif time.time() - t0 > limit:
+                    try:
+                        os.kill(pid, 9)
+                        os.waitpid(pid, 0)
+                    except Exception:      # noqa
+                        pass
+                    del running[pid]
+                    out[i] = {"task": getattr(tasks[i], "name", "?"), "function": getattr(tasks[i], "name", "?"), "status": "out-of-subset", "obligations": [],
+                              "detail": "the verification task exceeded its wall-clock limit of %d s and was stopped (no verdict)" % limit}
+    finally:
+        for pid in running:
+            try:
+                os.kill(pid, 9)
+            except Exception:      # noqa
+                pass
+        import shutil
+        shutil.rmtree(tmpd, ignore_errors=True)
     return out
 
 
